@@ -25,6 +25,7 @@ type c08node struct {
 	tcView  hotstuff.View
 	msgTC   map[hotstuff.View]bool // TC views that arrived inside the message handled in the current step
 	startView hotstuff.View        // the replica's view when the current step began
+	qcOf    map[hotstuff.View]map[hotstuff.ID]hotstuff.Hash // the block certified by the QC each counted timeout attests
 }
 
 func monC08(w *World) {
@@ -88,6 +89,17 @@ func monC08(w *World) {
 					return
 				}
 			}
+			if qc, ok := e.SyncInfo.QC(); ok {
+				if s.qcOf == nil {
+					s.qcOf = map[hotstuff.View]map[hotstuff.ID]hotstuff.Hash{}
+				}
+				if s.qcOf[e.View] == nil {
+					s.qcOf[e.View] = map[hotstuff.ID]hotstuff.Hash{}
+				}
+				if _, dup := s.qcOf[e.View][e.ID]; !dup {
+					s.qcOf[e.View][e.ID] = qc.BlockHash()
+				}
+			}
 			add(nd, s, e.View, e.ID)
 		case hotstuff.NewViewMsg:
 			if tc, ok := e.SyncInfo.TC(); ok {
@@ -114,7 +126,23 @@ func monC08(w *World) {
 		// (<=) the step that completed a quorum of correct timeouts for v ends with the replica beyond v
 		for _, v := range s.due {
 			if nd.states.View() <= v {
-				w.violate("C08", "C08/"+rule+"/missed", nd,
+				// with aggregate QCs: none of the blocks certified by the QCs that the timeouts attest is in this replica's
+				// store (and it could not fetch them in this step, or it would hold them now)
+				where := ""
+				if rule == "aggregate" && len(s.qcOf[v]) > 0 {
+					none := !s.t[v][nd.id] // its own timeout attests a QC for a block it holds
+					for id := 1; id <= w.plan.N; id++ {
+						if h, ok := s.qcOf[v][hotstuff.ID(id)]; ok {
+							if _, have := nd.bc.LocalGet(h); have {
+								none = false
+							}
+						}
+					}
+					if none {
+						where = "@attested-blocks-unavailable"
+					}
+				}
+				w.violate("C08", "C08/"+rule+"/missed"+where, nd,
 					"%s has handled correctly signed timeouts for view %d from %d distinct replicas while it had not left that view, and is still in view %d",
 					nd, v, len(s.t[v]), nd.states.View())
 				break
